@@ -50,7 +50,7 @@ def width_of(desc):
 def configs(tier, seed):
     import random
     rng = random.Random(seed)
-    shapes = [("u", w) for w in (0, 1, 2, 3, 5, 8, 16, 33, 65, 130)] + [("s", 4), ("s", 1), ("s", 70), ("enum2", 0), ("enum3", 0)]
+    shapes = [("u", w) for w in (0, 1, 2, 3, 5, 8, 16, 33, 65)] + [("s", 4), ("s", 1), ("s", 40), ("enum2", 0), ("enum3", 0)]
     if tier == "thorough":
         shapes = [("u", w) for w in range(0, 17)] + [("u", 24), ("u", 33), ("s", 1), ("s", 4), ("s", 9), ("enum2", 0), ("enum3", 0)]
     cfgs = []
